@@ -49,6 +49,12 @@ T = {
          "protocol automaton monitor on real runs.",
          "Lean 4 proofs over the protocol model + trace refinement + protocol-automaton monitor", "§7.9",
          PROTO_NOTE + " Components are abstracted to callback kinds in the model; per-component exactly-once is checked on the implementation."),
+ "C19": ("Invariant of a two-thread micro-step model of TorchInferenceModel / TorchTrainingModel.sync_impl: sync "
+         "post-condition, the module in use by inference is never the one the trainer writes, every observation is one "
+         "complete published parameter set; proved counterexample for the early-capturing unwrap; real pamiq_core.torch "
+         "classes on a stand-in torch under access-level preemption (one schedule per equivalence class).",
+         "Lean 4 invariant proof over all interleavings + preemption-schedule correspondence", "§7.19",
+         "Trusted: Lean kernel, standard axioms, linesched/accsched schedulers. Real PyTorch is replaced by a minimal stand-in (harness/stubs/torch; assumed behaviour listed in the evidence); parameters are integers; one inference and one training thread."),
  "C20": ("no_step_after_done, reset_count, action_provenance, delivery (exactly once, in order), request_honoured for every "
          "flag stream and request pattern; correspondence on all patterns of length <= 6 and random longer scripts.",
          "Lean 4 proofs over all scripts + differential correspondence", "§7.20",
